@@ -53,6 +53,29 @@ def find_entry(prog, trait_pat, self_pat, method):
     return c[0]
 
 
+def views_runner(prog, ctx):
+    """TryFrom<&str> followed, on success, by Header::protocol(), Header::addresses_str() and Display::fmt
+    on the returned value (their MIR is executed on the same path; panics there are Panic outcomes)"""
+    base = runner(prog, 'str', ctx)
+    proto = [n for (tr, ty, m, n) in prog.impl_index if tr is None and m == 'protocol' and ty.startswith('Header') and 'src/v1/' in n]
+    astr = [n for (tr, ty, m, n) in prog.impl_index if tr is None and m == 'addresses_str' and ty.startswith('Header') and 'src/v1/' in n]
+    disp = [n for (tr, ty, m, n) in prog.impl_index if tr and tr.endswith('Display') and m == 'fmt' and ty.startswith('Header') and 'src/v1/' in n]
+    if len(proto) != 1 or len(astr) != 1 or len(disp) != 1:
+        raise Unsupported('v1 Header view functions not found: %r %r %r' % (proto, astr, disp))
+
+    def run(e):
+        r = base(e)
+        if r.variant == 'Ok':
+            h = r.fields[0]
+            p = e.call_fn(proto[0], [Ref(Cell(h))], {})
+            a = e.call_fn(astr[0], [Ref(Cell(h))], {})
+            f = Opaque('Formatter', pieces=[])
+            d = e.call_fn(disp[0], [Ref(Cell(h)), Ref(Cell(f))], {})
+            e.notes.append(('views', p, a, list(f.pieces), d))
+        return r
+    return run
+
+
 ENTRIES = {
     'str': (r'^TryFrom<&str>$', r'^Header', 'try_from'),
     'bytes': (r'^TryFrom<&\[u8\]>$', r'^Header', 'try_from'),
@@ -78,21 +101,42 @@ def new_exec(prog, ctxs, lmax):
 
 
 def runner(prog, kind, ctx, text_valid_utf8=True):
+    if kind == 'str_views':
+        return views_runner(prog, ctx)
     name = entry_name(prog, kind)
     is_str = kind != 'bytes'
 
     def run(e):
         if is_str and text_valid_utf8:
-            e.assume(ctx.valid_utf8_prefix(ctx.L))
+            e.assume(ctx.valid_utf8_prefix(ctx.L), 'd')     # precondition of the &str type
         return e.call_fn(name, [ctx.input_str(is_str)], {})
     return run
 
 
 class Path:
-    __slots__ = ('script', 'pc', 'outcome', 'notes', 'idx')
+    __slots__ = ('script', 'items', 'pc', 'outcome', 'notes', 'idx', 'witness', 'inc', 'comp', '_neg')
 
-    def __init__(self, script, pc, outcome, notes, idx):
-        self.script, self.pc, self.outcome, self.notes, self.idx = script, pc, outcome, notes, idx
+    def __init__(self, script, items, outcome, notes, idx):
+        self.script, self.items, self.outcome, self.notes, self.idx = script, items, outcome, notes, idx
+        self.pc = [c for _, c in items]
+        self._neg = None
+
+    def neg(self, extra=None):
+        """formula equivalent to `this path is NOT taken` (optionally: `... or it is taken and `extra` fails`).
+        Fresh variables are existential in a path condition, so a plain Not(And(pc)) would be wrong; every
+        definition ('d' item) is total and unique *in the states in which it is introduced*, hence
+        not-taken == the first failing branch condition: nested  d1 & (~c1 | (d2 & (~c2 | ...)))."""
+        if extra is None and self._neg is not None:
+            return self._neg
+        f = z3.BoolVal(False) if extra is None else z3.Not(extra)
+        for kind, c in reversed(self.items):
+            if kind == 'd':
+                f = z3.And(c, f)
+            else:
+                f = z3.Or(z3.Not(c), f)
+        if extra is None:
+            self._neg = f
+        return f
 
     # ---- outcome classification
     def kind(self):
@@ -149,7 +193,7 @@ def summarize(prog, kind, ctx, scripts=None, lmax=None):
     else:
         prime(ctx)
         res = explore(ex, run, scripts=scripts)
-    return [Path(sc, pc, out, notes, i) for i, (sc, pc, out, notes) in enumerate(res)]
+    return [Path(sc, items, out, notes, i) for i, (sc, items, out, notes) in enumerate(res)]
 
 
 CACHE = os.path.join(VERIF, '.cache')
@@ -161,8 +205,8 @@ def model_version():
     if MODEL_VERSION is None:
         h = hashlib.sha256()
         d = os.path.dirname(os.path.abspath(__file__))
-        for fn in sorted(os.listdir(d)):
-            if fn.endswith('.py') and not fn.startswith('dev_'):
+        for fn in ('core.py', 'models.py', 'mirparse.py', 'v1sum.py'):
+            if True:
                 h.update(open(os.path.join(d, fn), 'rb').read())
         MODEL_VERSION = h.hexdigest()
     return MODEL_VERSION
